@@ -35,6 +35,7 @@ type ReplayJob struct {
 	Sched   [][]int             `json:"sched"`
 	Rounds  int                 `json:"rounds"`
 	VisAll  bool                `json:"visall"`
+	Repeat  int                 `json:"repeat"`
 	// expectations (not read by the native side)
 	Expect    string      `json:"expect"` // "reach" or the obligation message
 	ExpKind   string      `json:"expkind"`
@@ -505,6 +506,7 @@ func RunNative(L *Loaded, harnessDir string, jobs []*ReplayJob, race bool) (map[
 		t0 := time.Now()
 		ob, err := cmd.CombinedOutput()
 		fmt.Fprintf(&log, "$ (cd %s && go %s)  [%v]\n%s\n", dir, strings.Join(args, " "), time.Since(t0).Round(time.Millisecond), ob)
+		sawRace := race && strings.Contains(string(ob), "DATA RACE")
 		data, rerr := os.ReadFile(outFile)
 		if rerr != nil {
 			return outs, log.String(), fmt.Errorf("native replay for package %s produced no output (go test: %v)", pkgName, err)
@@ -514,6 +516,9 @@ func RunNative(L *Loaded, harnessDir string, jobs []*ReplayJob, race bool) (map[
 			return outs, log.String(), jerr
 		}
 		for _, ro := range ros {
+			if sawRace {
+				ro.Race = true
+			}
 			outs[ro.ID] = ro
 		}
 	}
